@@ -327,6 +327,12 @@ func tokenExprUnaryToProtoExprUnary(op datalog.UnaryOp) (*pb.OpUnary, error) {
 }
 
 func protoExprUnaryToTokenExprUnary(op *pb.OpUnary) (datalog.UnaryOpFunc, error) {
+	// kind is a required field, but proto.Unmarshal does not report it missing
+	// for a message held in a oneof
+	if op == nil || op.Kind == nil {
+		return nil, errors.New("biscuit: proto OpUnary has no kind")
+	}
+
 	var unaryOp datalog.UnaryOpFunc
 	switch *op.Kind {
 	case pb.OpUnary_Negate:
@@ -385,6 +391,10 @@ func tokenExprBinaryToProtoExprBinary(op datalog.BinaryOp) (*pb.OpBinary, error)
 }
 
 func protoExprBinaryToTokenExprBinary(op *pb.OpBinary) (datalog.BinaryOpFunc, error) {
+	if op == nil || op.Kind == nil {
+		return nil, errors.New("biscuit: proto OpBinary has no kind")
+	}
+
 	var binaryOp datalog.BinaryOpFunc
 	switch *op.Kind {
 	case pb.OpBinary_LessThan:
